@@ -5,20 +5,31 @@
    different conversions: error items pass unchanged) a wrong early choice is discovered late
    and the search is exponential.  [ilv_fast] decides the same predicate by a breadth-first
    sweep over the *set* of reachable position vectors (one step per observed item, states
-   de-duplicated by their remaining lengths): linear in the history for unambiguous strands,
-   polynomial in general.  Proofs/StreamIlv.v: [ilv_fast full l strs = true -> Shuf full l strs]
-   (what the correspondence check accepts satisfies the specification the theorems prove of the
-   model) and the converse for the strands of one state. *)
+   de-duplicated by their remaining lengths) with a symmetry reduction: a strand whose remaining
+   items equal those of an earlier strand of the same state is not advanced (the two successors
+   differ by a transposition of strands; without it k copies of one source merged again give
+   C(t+k-1,k-1) position vectors after t items — minutes of vm_compute for k = 7).  Linear in the
+   history for unambiguous strands and for copies of one strand, polynomial in general.
+   Proofs/StreamIlv.v: [ilv_fast full l strs = true <-> Shuf full l strs] (what the
+   correspondence check accepts is exactly the specification the theorems prove of the model). *)
 From Eino Require Import Base.Util Model.Stream.
 
-(* one strand of a state: remaining length, remaining items *)
 Definition pstrand : Type := (nat * list item)%type.
 Definition pstate : Type := list pstrand.
-
 Definition pinit (strs : list (list item)) : pstate := map (fun s => (List.length s, s)) strs.
 
+(* equality of two strands of a state (remaining length first: cheap when they differ) *)
+Fixpoint items_eqb (a b : list item) : bool :=
+  match a, b with
+  | [], [] => true
+  | x :: a', y :: b' => if item_eqb x y then items_eqb a' b' else false
+  | _, _ => false
+  end.
+Definition strand_eqb (p q : pstrand) : bool :=
+  if Nat.eqb (fst p) (fst q) then items_eqb (snd p) (snd q) else false.
+
 (* all states reached from [st] by taking [x] from the head of one strand (order of the
-   strands kept) *)
+   strands kept); of several equal strands only the first is advanced *)
 Fixpoint pstep_go (x : item) (pre : list pstrand) (post : pstate) {struct post} : list pstate :=
   match post with
   | [] => []
@@ -26,7 +37,9 @@ Fixpoint pstep_go (x : item) (pre : list pstrand) (post : pstate) {struct post} 
       match s with
       | y :: s' =>
           if item_eqb x y
-          then rev_append pre ((Nat.pred n, s') :: post') :: pstep_go x ((n, s) :: pre) post'
+          then if existsb (strand_eqb (n, s)) pre
+               then pstep_go x ((n, s) :: pre) post'
+               else rev_append pre ((Nat.pred n, s') :: post') :: pstep_go x ((n, s) :: pre) post'
           else pstep_go x ((n, s) :: pre) post'
       | [] => pstep_go x ((n, s) :: pre) post'
       end
@@ -39,17 +52,14 @@ Fixpoint lens_eqb (a b : pstate) : bool :=
   | (n, _) :: a', (m, _) :: b' => Nat.eqb n m && lens_eqb a' b'
   | _, _ => false
   end.
-
 (* keep one representative of every vector of remaining lengths *)
 Fixpoint pdedup (acc l : list pstate) : list pstate :=
   match l with
   | [] => acc
   | st :: l' => if existsb (lens_eqb st) acc then pdedup acc l' else pdedup (st :: acc) l'
   end.
-
 Definition pdone (full : bool) (st : pstate) : bool :=
   if full then forallb (fun p => nilb (snd p)) st else true.
-
 Fixpoint ilv_sweep (full : bool) (obs : list item) (states : list pstate) {struct obs} : bool :=
   match obs with
   | [] => existsb (pdone full) states
@@ -59,6 +69,5 @@ Fixpoint ilv_sweep (full : bool) (obs : list item) (states : list pstate) {struc
       | next => ilv_sweep full obs' next
       end
   end.
-
 Definition ilv_fast (full : bool) (obs : list item) (strs : list (list item)) : bool :=
   ilv_sweep full obs [pinit strs].
